@@ -120,8 +120,10 @@ def run(ck):
                 ok = True
         ck.decide(ok, R, "lit_bufsize", "1 << (mem_level + 6)", "lit_bufsize is not 1 << (memLevel + 6)", where(ini))
     heuristics(ck, P, ref)
+    from .. import condparity
+    ck.floor("SIB/ref-conditions", condparity.check(ck, P, "SIB/ref-conditions", only={"deflate_stored.c:deflate_stored", "deflate.c:fill_window", "deflate_fast.c:deflate_fast", "deflate_slow.c:deflate_slow", "deflate_medium.c:deflate_medium", "deflate_medium.c:emit_match", "deflate_medium.c:insert_match", "deflate_medium.c:fizzle_matches", "deflate_quick.c:deflate_quick", "deflate_rle.c:deflate_rle", "deflate_huff.c:deflate_huff", "trees.c:zng_tr_flush_block", "trees.c:gen_bitlen", "trees.c:build_tree", "trees.c:scan_tree", "trees.c:build_bl_tree", "deflate.c:deflate"}), 130)
     from .. import refwrites
-    ck.floor("SIB/ref-writes", refwrites.check(ck, P, "SIB/ref-writes", only={"deflate.c:fill_window", "deflate.c:lm_init", "deflate.c:lm_set_level", "deflate_fast.c:deflate_fast", "deflate_slow.c:deflate_slow", "deflate_medium.c:deflate_medium", "deflate_quick.c:deflate_quick", "deflate_rle.c:deflate_rle", "deflate_huff.c:deflate_huff", "deflate_stored.c:deflate_stored"}), 40)
+    ck.floor("SIB/ref-writes", refwrites.check(ck, P, "SIB/ref-writes", only={"deflate.c:deflateTune", "deflate.c:deflateParams", "deflate.c:fill_window", "deflate.c:lm_init", "deflate.c:lm_set_level", "deflate_fast.c:deflate_fast", "deflate_slow.c:deflate_slow", "deflate_medium.c:deflate_medium", "deflate_quick.c:deflate_quick", "deflate_rle.c:deflate_rle", "deflate_huff.c:deflate_huff", "deflate_stored.c:deflate_stored"}), 40)
     ck.extra["values_compared"] = n
     ck.extra["exhaustive"] = True
     ck.extra["reference_files"] = ref["files"]
@@ -130,6 +132,8 @@ def run(ck):
 
 
 # id -> (rust function regex, [atom patterns that must all occur among the function's branch atoms])
+LOCAL_SPELLINGS = {"match_len", "best_len"}
+
 HEURISTICS_RS = {
     "slow:filtered-short-match": (r"algorithm::slow::deflate_slow$", [dict(rel="Le", lo_names={"match_len"}, hi_consts={5}), dict(rel="Eq", names={"strategy", "Filtered"})]),
     "slow:lazy-prev-better": (r"algorithm::slow::deflate_slow$", [dict(rel="Le", lo_names={"STD_MIN_MATCH"}, hi_names={"prev_length"}), dict(rel="Le", lo_names={"match_len"}, hi_names={"prev_length"})]),
@@ -162,6 +166,19 @@ def heuristics(ck, P, ref):
         ck.use_fn(fn)
         ck.decide(cref.get(hid) is True, R, hid + ":reference", "condition present in zlib-ng's source", "the reference condition for %s was not found in the zlib-ng extract" % hid)
         ss = [_sig.sig(a, fn) for a, b, tb in _atoms.all_atoms(fn)]
+        # names of working locals are required only while a local of that spelling exists (a renamed local weakens the
+        # pattern to its fields/constants instead of failing it)
+        have_locals = {str(l.get("name")) for l in fn.locals if l.get("name")}
+
+        def relax(p):
+            q = dict(p)
+            for k in ("names", "lo_names", "hi_names"):
+                if k in q:
+                    q[k] = {n for n in q[k] if n not in LOCAL_SPELLINGS or n in have_locals}
+                    if not q[k]:
+                        del q[k]
+            return q
+        pats = [relax(p) for p in pats]
         missing = [p for p in pats if not any(_sig.match(s_, p) for s_ in ss)]
         if hid == "match:early-exit" and missing:
             # `early_exit = level < EARLY_EXIT_TRIGGER_LEVEL` is a stored comparison, not a branch
